@@ -976,10 +976,10 @@ def run(chk):
         handle_broken(chk)
 
     max_ops = 5 if quick else 10
-    n = 1000 if quick else 6000
+    n = 800 if quick else 6000
     # fixed regression cases first: the defects repaired by `fix:` commits (their witnesses)
     fixed = corpus_cases()
-    nprod = 300 if quick else 2500
+    nprod = 250 if quick else 2500
     cases = fixed + [gen_case(rng, max_ops) for _ in range(n)] + [gen_product_case(rng) for _ in range(nprod)]
     results = run_cases(cases)
     for i, (case, res) in enumerate(zip(cases, results)):
@@ -1121,7 +1121,9 @@ def replay(path):
     vals = [canon_impl(v) for v in got.values()]
     bad = any(v in ("HANG", "PANIC") or v.startswith("COMPILE") for v in vals) or len(set(vals)) > 1
     if r.get("expected") is not None:
-        bad = bad or any(v != r["expected"] for v in vals)
+        bad = bad or any(v != canon_impl(r["expected"]) for v in vals)
+    if r.get("expect_no_violation"):
+        bad = bad or any(v == "VIOL" for v in vals)
     if mo is not None and r.get("expected") is None:
         bad = bad or any(v != parse_model(mo) for v in vals)
     print("VIOLATION property=C16 replay=%s" % path if bad else "no longer failing")
